@@ -158,7 +158,15 @@ def replay(path):
     d = json.load(open(path)); ck = Check(PID, 'quick'); c = d.get('case')
     if not isinstance(c, str):
         print(json.dumps(d, indent=1)[:2000]); return 1
-    mexe, _ = ck.build_modelrun(); iexe, _ = ck.build_harness('bq', ['bq.cpp'])
+    mexe, _ = ck.build_modelrun()
+    if c.startswith('uq '):
+        from props.c02 import WRAP
+        iexe, _ = ck.build_harness('uq', ['uq.cpp'], flags=WRAP)
+        i = ck.run_impl(iexe, [c])[0]
+        print('case :', c); print('model:', ck.run_model(mexe, [c])[0]); print('impl :', i); print('monitor:', U.monitor_c09u(c, i))
+        if U.monitor_c09u(c, i) and U.d13_shape(c, i): print('KNOWN-FINDING: property=%s D13 open (max capacity not a power of two and prev_pow2(max) < n <= max)' % PID)
+        return 1 if U.monitor_c09u(c, i) else 0
+    iexe, _ = ck.build_harness('bq', ['bq.cpp'])
     i = ck.run_impl(iexe, [c])[0]
     print('case :', c); print('model:', ck.run_model(mexe, [c])[0]); print('impl :', i); print('monitor:', B.monitor_c09(c, i))
     return 1 if B.monitor_c09(c, i) else 0
